@@ -196,7 +196,11 @@ def step (s : St) : Op → Option St
     else some { s with task := .running, str := upd s.str i x.discard }
   | .park => if s.task == .running && !s.closed then some { s with task := .parked } else none
   | .wake => if s.task == .parked && s.hasData then some { s with task := .running, hasData := false } else none
-  | .exit => if s.task == .running && s.closed then some { s with task := .exited } else none
+  | .exit =>
+    -- the loop ends; the `finally` of `send_task` closes every remaining buffer (nothing more will be sent)
+    if s.task == .running && s.closed then
+      some { s with task := .exited, str := fun j => let x := s.str j; if x.hasBuf then x.closeBuf else x }
+    else none
   | .winStream i k =>
     let x := s.str i
     some { s with hasData := true,
